@@ -386,6 +386,21 @@ Section Matchers.
     end.
   Definition split_lines (s : str) : list str := split_lines_aux [] s.
 
+  (** bufio.Scanner with its default buffer: Scan gives up with ErrTooLong as soon
+      as a line reaches bufio.MaxScanTokenSize = 64 KiB without its newline (the
+      buffer is full and holds no complete token). [scan_lines] = the lines
+      delivered before that, and whether the scanner gave up. [n] = length cur. *)
+  Definition max_scan_token : N := 65536.
+  Fixpoint scan_lines_aux (cur : str) (n : N) (s : str) : list str * bool :=
+    match s with
+    | [] => (match cur with [] => [] | _ :: _ => [drop_cr_rev cur] end, false)
+    | c :: t =>
+      if c =? 10 then let '(ls, e) := scan_lines_aux [] 0 t in (drop_cr_rev cur :: ls, e)
+      else if max_scan_token <=? n + 1 then ([], true)
+      else scan_lines_aux (c :: cur) (n + 1) t
+    end.
+  Definition scan_lines (s : str) : list str * bool := scan_lines_aux [] 0 s.
+
   (** strings.Fields *)
   Fixpoint fields_aux (cur : str) (s : str) : list str :=
     match s with
@@ -430,7 +445,11 @@ Section Matchers.
       end
     end.
   Definition load_text (parse : parse_fn) (dflt : str) (text : str) (m : mix) : mix * N :=
-    load_lines parse dflt 0 (split_lines text) m.
+    let '(ls, gave_up) := scan_lines text in
+    let '(m', e) := load_lines parse dflt 0 ls m in
+    if negb (e =? 0) then (m', e)
+    else if gave_up then (m', N.of_nat (length ls) + 1)   (* [return scanner.Err()] *)
+    else (m', 0).
 
   (** A sequence of Load calls that stops at the first error (how the plugins
       load their in-line rules); 1-based index of the failing one, 0 = none. *)
